@@ -57,9 +57,12 @@ def vec_hook(call, ex):
             return sym('lse(%s)' % v)
     if name in ('np.array', 'np.asarray', 'numpy.array') and len(call.args) == 1 and isinstance(call.args[0], ast.Name):
         return ex.value(call.args[0])
-    if name in ('np.log', 'numpy.log') and len(call.args) == 1 and isinstance(call.args[0], ast.Name) \
-            and isinstance(ex.env.get(call.args[0].id), Opaque):
-        return sym('log(%s)' % call.args[0].id)
+    if name in ('np.log', 'numpy.log') and len(call.args) == 1 and isinstance(call.args[0], ast.Name):
+        v = ex.env.get(call.args[0].id)
+        if isinstance(v, Opaque):
+            return sym('log(%s)' % call.args[0].id)
+        if isinstance(v, Alg) and v.is_rat() and len(v.rat().symbols()) == 1 and v.eq(sym(list(v.rat().symbols())[0])):
+            return sym('log(%s)' % list(v.rat().symbols())[0])      # a plain copy / array view of a vector
     return None
 
 
@@ -175,6 +178,57 @@ def run(ctx):
     check_gem(ctx)
     check_helpers(ctx)
     check_inputs_unmodified(ctx)
+    check_signatures(ctx)
+
+
+# positional parameters of the selection / noise primitives as callers know them: (name, default or None)
+ESTABLISHED_SIGNATURES = {
+    (MECH, 'Mechanism.generalized_exponential_mechanism'): [('qualities', None), ('sensitivities', None), ('epsilon', None), ('t', 'None'),
+                                                           ('base_measure', 'None')],
+    (MECH, 'Mechanism.permute_and_flip'): [('qualities', None), ('epsilon', None), ('sensitivity', '1.0')],
+    (MECH, 'Mechanism.exponential_mechanism'): [('qualities', None), ('epsilon', None), ('sensitivity', '1.0'), ('base_measure', 'None')],
+    (MECH, 'Mechanism.gaussian_noise_scale'): [('l2_sensitivity', None), ('epsilon', None), ('delta', None)],
+    (MECH, 'Mechanism.laplace_noise_scale'): [('l1_sensitivity', None), ('epsilon', None)],
+    (MECH, 'Mechanism.gaussian_noise'): [('sigma', None), ('size', None)],
+    (MECH, 'Mechanism.laplace_noise'): [('b', None), ('size', None)],
+    (MST, 'exponential_mechanism'): [('q', None), ('eps', None), ('sensitivity', None), ('prng', 'np.random'), ('monotonic', 'False')],
+    (AG, 'exponential_mechanism'): [('q', None), ('eps', None), ('sensitivity', None), ('prng', 'np.random'), ('monotonic', 'False')],
+    (MWEM, 'worst_approximated'): [('workload_answers', None), ('est', None), ('workload', None), ('eps', None), ('penalty', 'True'),
+                                   ('bounded', 'False')],
+}
+
+
+def check_signatures(ctx):
+    """A positional call written against the established signature must still bind every value to the parameter it was meant for: the
+    established parameters keep their positions (new ones come after them or are keyword-only) and the defaults they had (a parameter
+    that had none may gain one).  A generator landing in `monotonic` is truthy and silently halves the noise scale of the selection."""
+    repo = ctx.repo
+    n = 0
+    for (rel, q), want in ESTABLISHED_SIGNATURES.items():
+        if not repo.exists(rel):
+            continue
+        try:
+            fi = repo.func(rel, q)
+        except AnalysisError:
+            raise AnalysisError('anchor vanished: %s:%s' % (rel, q))
+        a = fi.node.args
+        pos = [x.arg for x in a.posonlyargs + a.args]
+        if pos and pos[0] == 'self':
+            pos = pos[1:]
+        defaults = {k: U(v) for k, v in fi.defaults().items()}
+        bad = []
+        for i, (p, d) in enumerate(want):
+            if p not in pos:
+                continue                      # removed / renamed / keyword-only: a call that used it fails loudly or still binds by name
+            if pos.index(p) != i:
+                bad.append('`%s` moved from position %d to %d' % (p, i + 1, pos.index(p) + 1))
+            elif d is not None and defaults.get(p, '<none>').replace(' ', '') != d:
+                bad.append('default of `%s` changed from %s to %s' % (p, d, defaults.get(p, '<none>')))
+        n += 1
+        ctx.ob('signature-order', fi, fi.node, not bad,
+               '%s: positional callers bind (%s); %s' % (q, ', '.join(p for p, _ in want), '; '.join(bad) or 'positions and defaults kept'),
+               construct='signature of ' + q)
+    ctx.counters['signatures'] = n
 
 
 def check_primitive(ctx, fi, spec, flags):
@@ -279,16 +333,99 @@ def check_key_alignment(ctx):
     it_q = U(cq.generators[0].iter)
     ok_q = U(cq.elt) == '%s[%s]' % (qual, U(cq.generators[0].target))
     ctx.ob('key-aligned', fi, sq, ok_q, 'quality vector must be [qualities[key] for key in <keys>]')
-    for sb, cb in comps.get(base, []):
+    for sb, cb in comps.get(base, []) + base_vectors(fi, base, [id(x[1]) for x in comps.get(base, [])]):
         ok = U(cb.generators[0].iter) == it_q and U(cb.elt) == '%s[%s]' % (base, U(cb.generators[0].target)) \
             and not cb.generators[0].ifs
         ctx.ob('key-aligned', fi, sb, ok,
                'base-measure vector must be indexed by the same key list `%s` as the quality vector' % it_q)
+    for q in ('Mechanism.exponential_mechanism', 'Mechanism.generalized_exponential_mechanism'):
+        check_log_measure(ctx, ctx.repo.nfunc(MECH, q), base)
     # the returned key comes from the same list
     rets = [r for r in walk_shallow(fi.node) if isinstance(r, ast.Return)]
     for r in rets:
         ok = isinstance(r.value, ast.Subscript) and U(r.value.value) == it_q
         ctx.ob('key-aligned', fi, r, ok, 'the selected index must be mapped back through the same key list')
+
+
+def expanded_value(fi, stmt):
+    """the value assigned by `stmt` with the locals of its own block that were assigned just before it substituted (helper bodies that
+    the front end inlined leave such temporaries behind)"""
+    from ..srcmodel import clone
+    par = getattr(stmt, '_parent', None)
+    block = None
+    for f in ('body', 'orelse'):
+        b = getattr(par, f, None)
+        if isinstance(b, list) and stmt in b:
+            block = b
+    env = {}
+
+    def subst(e):
+        e = clone(e)
+
+        class R(ast.NodeTransformer):
+            def visit_Name(self, n):
+                if isinstance(n.ctx, ast.Load) and n.id in env:
+                    return clone(env[n.id])
+                return n
+        return R().visit(ast.Expression(body=e)).body
+    for s_ in block or []:
+        if s_ is stmt:
+            break
+        if isinstance(s_, ast.Assign) and len(s_.targets) == 1 and isinstance(s_.targets[0], ast.Name):
+            env[s_.targets[0].id] = subst(s_.value)
+        else:
+            for n in ast.walk(s_):
+                if isinstance(n, ast.Name) and isinstance(n.ctx, ast.Store):
+                    env.pop(n.id, None)
+    return subst(stmt.value)
+
+
+def base_stores(fi, base):
+    return [s for s in walk_shallow(fi.node) if isinstance(s, ast.Assign) and len(s.targets) == 1 and isinstance(s.targets[0], ast.Name)
+            and s.targets[0].id == base]
+
+
+def base_vectors(fi, base, seen):
+    """(store, comprehension) for base-measure vectors built through temporaries"""
+    out = []
+    for s in base_stores(fi, base):
+        if any(isinstance(n, ast.ListComp) for n in ast.walk(s.value)):
+            continue
+        e = expanded_value(fi, s)
+        for n in ast.walk(e):
+            if isinstance(n, ast.ListComp) and id(n) not in seen:
+                out.append((s, n))
+    return out
+
+
+WRAPPERS = ('np.asarray', 'np.array', 'numpy.asarray', 'numpy.array', 'np.asanyarray', 'np.ascontiguousarray')
+
+
+def check_log_measure(ctx, fi, base):
+    """A base measure given by key is a measure: its log is added to the scaled scores, and a candidate of measure 0 gets log-measure
+    -inf, i.e. is never selected.  The vector must be numpy.log of the weights as they are - clamping the weights (or the log) to a finite
+    floor lets a zero-measure candidate win whenever its score leads by enough."""
+    for s in base_stores(fi, base):
+        e = expanded_value(fi, s)
+        if not any(isinstance(n, ast.ListComp) and base in U(n) for n in ast.walk(e)):
+            continue
+
+        def strip(x):
+            while isinstance(x, ast.Call) and U(x.func) in WRAPPERS and len(x.args) == 1 and not \
+                    [k for k in x.keywords if k.arg != 'dtype' or U(k.value) not in ('float', 'np.float64')]:
+                x = x.args[0]
+            return x
+        x = strip(e)
+        clamps = [U(c.func) for c in ast.walk(e) if isinstance(c, ast.Call) and U(c.func).split('.')[-1] in
+                  ('maximum', 'clip', 'fmax', 'nan_to_num', 'where', 'max', 'log1p')]
+        shifted = [b for b in ast.walk(e) if isinstance(b, ast.BinOp) and isinstance(b.op, (ast.Add, ast.Sub))]
+        is_log = isinstance(x, ast.Call) and U(x.func) in ('np.log', 'numpy.log') and len(x.args) == 1 and isinstance(strip(x.args[0]), ast.ListComp) \
+            and not strip(x.args[0]).generators[0].ifs and isinstance(strip(x.args[0]).elt, ast.Subscript)
+        if not is_log and not clamps and not shifted:
+            raise AnalysisError('%s: base-measure vector `%s` is in no recognised form' % (fi.qualname, U(e)[:80]))
+        ctx.ob('log-measure', fi, s, is_log,
+               'the keyed base measure enters the logits as numpy.log of the weights themselves (0 -> -inf: never selected); got `%s`%s'
+               % (U(e)[:90], (' - clamped by %s' % ', '.join(clamps)) if clamps else ''), construct='log of the base measure in ' + fi.qualname)
 
 
 def check_gem(ctx):
@@ -311,7 +448,7 @@ def check_gem(ctx):
         bname = base.id
         for st in ast.walk(fi.node):
             if isinstance(st, ast.Assign) and len(st.targets) == 1 and U(st.targets[0]) == bname:
-                v = st.value
+                v = expanded_value(fi, st)
                 logged = any(isinstance(x, ast.Call) and U(x.func).split('.')[-1] in ('log', 'log2', 'log10') for x in ast.walk(v))
                 is_dict = isinstance(v, (ast.DictComp, ast.Dict)) or (isinstance(v, ast.Call) and U(v.func) == 'dict')
                 is_arr = not is_dict and (isinstance(v, (ast.ListComp, ast.List)) or (isinstance(v, ast.Call) and U(v.func).split('.')[-1] in ('log', 'array', 'asarray')))
